@@ -29,7 +29,7 @@ PROFILES = {
     "timed": dict(
         send=[("send_timeout", 5), ("send_option_timeout", 5), ("send", 2), ("try_send", 1), ("close", 1), ("drop", 1)],
         recv=[("recv_timeout", 6), ("recv", 2), ("try_recv", 1), ("drain_into", 1), ("close", 1), ("drop", 1)],
-        caps=[0, 0, 1, 2], nprocs=[2, 3], nops=[1, 2, 3], payloads=["w1", "b3", "h4", "p5"]),
+        caps=[0, 0, 1, 2], nprocs=[2, 3], nops=[1, 2, 3], payloads=["w1", "b3", "h4", "p5", "z0", "u8"]),
     "async": dict(
         send=[("asend", 8), ("send", 2), ("try_send", 2), ("close", 1), ("drop", 1)],
         recv=[("arecv", 8), ("stream", 4), ("recv", 2), ("try_recv", 2), ("close", 1), ("drop", 1)],
@@ -51,7 +51,7 @@ PROFILES = {
     "capacity": dict(
         send=[("send", 5), ("try_send", 4), ("try_send_option", 2), ("asend", 4), ("send_timeout", 2), ("obs_len", 3)],
         recv=[("recv", 4), ("try_recv", 3), ("drain_into", 2), ("arecv", 2), ("obs_len", 3)],
-        caps=[0, 0, 1, 2, 3, None], nprocs=[2, 3, 3, 4], nops=[2, 3, 4], payloads=["w1", "b3"], late=0.4, late_side="r"),
+        caps=[0, 0, 1, 2, 3, None], nprocs=[2, 3, 3, 4], nops=[2, 3, 4], payloads=["w1", "b3", "z0", "z0", "u8", "z64"], late=0.4, late_side="r"),
     "close": dict(
         send=[("send", 4), ("try_send", 2), ("send_timeout", 2), ("send_option_timeout", 1), ("asend", 3), ("close", 3), ("obs", 2), ("clone", 1)],
         recv=[("recv", 4), ("try_recv", 2), ("recv_timeout", 2), ("drain_into", 1), ("arecv", 3), ("stream", 1), ("close", 3), ("obs", 2), ("is_terminated", 1), ("clone", 1)],
@@ -104,6 +104,9 @@ def gen_program(rng, profile="general", payload=None, cap="rand"):
         return gen_chain(rng, payload, cap)
     if profile == "chain_s":
         return gen_chain(rng, payload, cap, side="s")
+    if profile == "chain_z":
+        # zero-sized payloads (no identity: count-based oracles) on the ordered blocking scenarios, buffered channels only
+        return gen_chain(rng, rng.choice(["z0", "z0", "z64"]), rng.choice([1, 1, 2]), side="s")
     if profile == "progress":
         return gen_progress(rng)
     if profile == "pair":
